@@ -32,6 +32,7 @@ struct syn_level {
   int attached_numa;       /* number of "[numa]" attached after this level */
   unsigned long long memory;  /* memory= attribute (NUMA level or attached numa), 0 = not given */
   unsigned long long size;    /* size= attribute (caches), 0 = not given */
+  unsigned long long mscache; /* memorysidecachesize= attribute of the NUMA level or of the attached NUMA nodes, 0 = not given */
   const char *indexes;     /* text of an indexes= attribute or NULL */
 };
 struct syn_desc { int nlevels; struct syn_level lv[SYN_MAXLEVELS]; char text[600]; int family; /* 1 full product, 2 deeper restricted product, 3 attached NUMA, 4 indexes/sizes */ };
